@@ -31,6 +31,9 @@ func c14(c *core.Ctx) {
 	c.Clause("C14.11", "identity survives the encoding: hash and signing hashes are computed from the encoded content only — the functions that compute them read no field of Transaction but data (and Hash its own memo)")
 	c.Run("identity-from-content", func() { c04IdentityFromContent(c) })
 
+	c.Clause("C14.12", "a value is never encoded or decoded with a half-built codec: every access to common/rlp's type-info cache holds typeCacheMutex (the generator publishes an empty placeholder before it fills it)")
+	c.Run("typecache-locked", func() { c14TypeCacheLocked(c) })
+
 	c.NotDecidedf("round-trip equality (decode(encode(x)) == x) and byte canonicity (encode(decode(b)) == b) as value properties; only the structural agreement of the two sides is decided")
 	c.NotDecidedf("the base26 textual address form and its checksum; hexutil/JSON codecs beyond field-set agreement of txdata (value formats, Big10 signs, required-field handling)")
 	c.NotDecidedf("the reflection-driven generic encoder/decoder of common/rlp (typecache, struct tags other than those of txdata), nil dereferences and arithmetic inside decoders, and that a custom DecodeRLP consumes exactly its own value")
